@@ -275,7 +275,7 @@ PROPS['C03'] = {
             'component header, random bytes; each mutant goes to Module::parse (multi-memory flag off and on) and Component::parse under catch_unwind; distinct by case line; non-trivial always',
     'trusted': COMMON_TRUST + [
         'the event extractor harness/src/parse_facts.rs (it must read what parse_internal reads, in the same order; tied to the code by the OK / ERR agreement on every mutant)',
-        'NOT covered by the theorem: panics inside wasmparser / wasm-encoder, allocation failure, stack exhaustion on deeply nested components (the recursion of parse_comp), and Component::parse\'s own guards beyond the two repaired slicing sites - these are sampled by the mutants only (label PARTIAL)',
+        'NOT covered by the theorem: panics inside wasmparser / wasm-encoder, allocation failure, stack exhaustion by anything but the (now bounded, c03_component_nesting_bounded) recursion of parse_comp over nested components, and Component::parse\'s own guards beyond the two repaired slicing sites - these are sampled by the mutants only (label PARTIAL)',
     ],
     'assumptions': ['the host has enough stack for the nesting depth of the input'],
     'design_ref': 'DESIGN.md section 6, C03',
